@@ -125,6 +125,14 @@ func run(c *core.Ctx) {
 		if !c.NextMine() {
 			continue
 		}
+		// determinism self-test: the default schedule replayed twice must give identical traces and final states
+		if a, errA := gate.Replay(sc, nil); errA == nil {
+			if b, errB := gate.Replay(sc, a.Choices); errB != nil || fmt.Sprint(a.Trace) != fmt.Sprint(b.Trace) || a.World.Canon() != b.World.Canon() {
+				c.NotExhaustive("scenario %s/%s is not deterministic under replay (harness problem): %v", sc.Name, sc.Driver, errB)
+				continue
+			}
+			c.Count("replay_determinism_selftests", 1)
+		}
 		salt := core.Hash64(sc.Name + "|" + sc.Driver)
 		st, err := gate.Explore(sc, func(ex *gate.Exec) { oracle(c, ex) }, func(k uint64, live int) {
 			c.StateHash(k ^ salt)
